@@ -176,14 +176,14 @@ struct StepProg {
 
 fn step_programs(tier: mcx::Tier) -> Vec<StepProg> {
     let deep: Vec<u64> = (1..=20).collect();
-    let l = tier.pick(10usize, 13usize);
+    let l = tier.pick(11usize, 16usize);
     vec![
-        StepProg { name: "tiny", src: "begin push.1 drop end", stack: vec![], max_len: 12 },
+        StepProg { name: "tiny", src: "begin push.1 drop end", stack: vec![], max_len: tier.pick(12, 17) },
         StepProg { name: "deep_inputs", src: "begin swap drop push.7 end", stack: deep.clone(), max_len: l },
         StepProg { name: "cross_16", src: "begin push.1 push.2 push.3 drop drop drop drop drop end", stack: (1..=17).collect(), max_len: l },
         StepProg { name: "call", src: "proc.f push.5 mem_store.3 mem_load.3 drop end begin push.9 mem_store.3 call.f mem_load.3 drop end", stack: deep.clone(), max_len: l },
-        StepProg { name: "call_nested", src: "proc.g push.7 mem_store.3 mem_load.3 drop end proc.f push.5 mem_store.3 call.g mem_load.3 drop end begin push.9 mem_store.3 call.f mem_load.3 drop end", stack: vec![1, 2], max_len: 8 },
-        StepProg { name: "dyncall", src: "proc.f push.5 mem_store.3 mem_load.3 drop end begin push.9 mem_store.3 procref.f dyncall dropw mem_load.3 drop end", stack: vec![1, 2], max_len: 8 },
+        StepProg { name: "call_nested", src: "proc.g push.7 mem_store.3 mem_load.3 drop end proc.f push.5 mem_store.3 call.g mem_load.3 drop end begin push.9 mem_store.3 call.f mem_load.3 drop end", stack: vec![1, 2], max_len: tier.pick(8, 13) },
+        StepProg { name: "dyncall", src: "proc.f push.5 mem_store.3 mem_load.3 drop end begin push.9 mem_store.3 procref.f dyncall dropw mem_load.3 drop end", stack: vec![1, 2], max_len: tier.pick(8, 13) },
         StepProg { name: "locals", src: "proc.f.2 push.4 loc_store.1 loc_load.1 drop end begin exec.f push.1 drop end", stack: vec![3], max_len: l },
         StepProg { name: "loop", src: "begin push.2 dup neq.0 while.true push.1 sub dup neq.0 end drop end", stack: vec![], max_len: l },
     ]
@@ -223,7 +223,7 @@ fn stepping(ctx: &Ctx, stats: &Mutex<BTreeMap<String, u64>>) {
         // every next/back pattern up to a short length that starts with a change of direction - this puts
         // a direction change on every row of the trace, in particular on both sides of every context
         // switch, which the histories from clock 0 above cannot reach in long programs
-        let tail = ctx.tier.pick(6usize, 9usize);
+        let tail = ctx.tier.pick(7usize, 12usize);
         for p in (sp.max_len.saturating_sub(1))..=(rows.cycles + 2) {
             for l in 1..=tail {
                 for bits in 0..(1u64 << (l - 1)) {
